@@ -277,6 +277,16 @@ class Lowerer:
                            wfrom=ws, wto=wt)
         return sub
 
+    def floating_cast(self, node, src, sub, implicit):
+        def des(n):
+            t = n.get('type') or {}
+            return (t.get('desugaredQualType') or t.get('qualType') or '')
+        wf = {'float': 32, 'double': 64, 'long double': 80}
+        a = wf.get(des(src).replace('const ', '').strip())
+        b = wf.get(des(node).replace('const ', '').strip())
+        return self.mk('cast', node, [sub], kind='FloatingCast', implicit=implicit, frm=des(src), to=des(node),
+                       narrowing=bool(a and b and b < a))
+
     def note_unknown(self, node):
         k = node.get('kind')
         self.unknown[k] = self.unknown.get(k, 0) + 1
@@ -427,6 +437,8 @@ class Lowerer:
                 sub = self.expr(inner[0])
                 if ck == 'IntegralCast':
                     return self.integral_cast(node, inner[0], sub, True)
+                if ck == 'FloatingCast':
+                    return self.floating_cast(node, inner[0], sub, True)
                 return self.mk('cast', node, [sub], kind=ck, implicit=True)
             return self.expr(inner[0])
         if k in ('ParenExpr', 'ExprWithCleanups', 'MaterializeTemporaryExpr', 'CXXBindTemporaryExpr',
@@ -436,6 +448,8 @@ class Lowerer:
                  'CXXReinterpretCastExpr'):
             ck = node.get('castKind')
             sub = self.expr(inner[0])
+            if ck == 'FloatingCast' and inner:
+                return self.floating_cast(node, inner[0], sub, False)
             if ck in VALUE_CASTS and ck != 'IntegralCast':
                 return self.mk('cast', node, [sub], kind=ck, implicit=False)
             if ck == 'IntegralCast' and inner:
